@@ -15,7 +15,7 @@ class Stop(Exception):
     pass
 
 
-def run(ctx, rng, k, cancel_prob=0.0, max_polls=40):
+def run(ctx, rng, k, cancel_prob=0.0, max_polls=40, local_prob=0.0):
     """returns dict(mon={prop: [...]}, polls=.., ret=.., spec=.., nontrivial=..)"""
     import maestrowf.conductor as cmod
     from maestrowf.conductor import Conductor
@@ -38,8 +38,9 @@ def run(ctx, rng, k, cancel_prob=0.0, max_polls=40):
         return None
     dag = c._exec_dag
     names = [x for x in dag.values if x != "_source"]
+    all_local = rng.random() < local_prob      # nothing is ever in flight between polls
     S.WORLD.reset(subs=[0 if rng.random() < 0.08 else 1 for _ in range(60)],
-                  sched={nm: rng.random() < 0.85 for nm in names})
+                  sched={nm: (not all_local) and rng.random() < 0.85 for nm in names})
     S.WORLD.poll_code = "OK"
     S.WORLD.poll_reports = []
     mon = {"C18": [], "C07": [], "C12": [], "C05": [], "C01": []}
@@ -53,6 +54,7 @@ def run(ctx, rng, k, cancel_prob=0.0, max_polls=40):
             if src != "_source" and d in parents:
                 parents[d].append(src)
     succeeded = set()
+    rounds = {}
 
     def c01_scan():
         # one poll = one status query (which may resolve parents) followed by the
@@ -85,6 +87,9 @@ def run(ctx, rng, k, cancel_prob=0.0, max_polls=40):
         except Exception as e:  # noqa
             mon["C18"].append(("snapshot-loads", "poll %d: %s %s" % (k_, type(e).__name__, str(e)[:60])))
             snap = None
+        # restart rounds of this poll, read off the scheduler's own record of submissions
+        for nm_ in set(ev[1] for ev in S.WORLD.events if ev[0] in ("submit", "local") and ev[2] == "restart"):
+            rounds[nm_] = rounds.get(nm_, 0) + 1
         table = Conductor.get_status(root)
         tn = table.get("Step Name", [])
         if sorted(tn) != sorted(names):
@@ -93,6 +98,9 @@ def run(ctx, rng, k, cancel_prob=0.0, max_polls=40):
             if nm not in dag.values:
                 continue
             live = dag.values[nm]
+            if "Number Restarts" in table and str(table["Number Restarts"][idx]) != str(rounds.get(nm, 0)):
+                mon["C12"].append(("rows-consistent", "poll %d: %s shows %s restarts in status.csv, the scheduler "
+                                   "saw %d restart rounds" % (k_, nm, table["Number Restarts"][idx], rounds.get(nm, 0))))
             if table["State"][idx] != live.status.name:
                 mon["C12"].append(("rows-consistent", "poll %d: %s is %s in status.csv, %s live"
                                    % (k_, nm, table["State"][idx], live.status.name)))
@@ -152,6 +160,9 @@ def run(ctx, rng, k, cancel_prob=0.0, max_polls=40):
                 mon["C07"].append(("cancel-jobs-called", "cancel lock consumed but cancel_jobs was never called"))
         elif ret != "CANCELLED":
             mon["C07"].append(("ends-cancelled", "cancel requested at poll %d, returned %s" % (st["cancel_at"], ret)))
+    if st["cancel_at"] is not None and ret in ("FINISHED", "FAILURE"):
+        mon["C05"].append(("verdict-truthful", "cancel requested after poll %d (%s) but the conductor returned %s"
+                           % (st["cancel_at"], "only local steps" if all_local else "scheduled steps", ret)))
     states = {nm: dag.values[nm].status.name for nm in names}
     if ret == "FINISHED" and any(v != "FINISHED" for v in states.values()):
         mon["C05"].append(("verdict-truthful", "returned FINISHED with states %s" % states))
